@@ -188,3 +188,24 @@ package ttheader
 //@   ensures err != nil ==> isnil(totalLenField)
 //@   assigns out.$wlen, out.$nchunks, out.$lastchunk, out.$prevchunk
 //@   loop 1 invariant wrAdded(out) == 16 && err == nil && 0 <= old(out.$wlen) && out.$wlen <= 0x800000000000
+
+// DecodeFromBytes: Decode over a bytes reader whose stream is exactly bs.
+//@ func DecodeFromBytes
+//@   arith int
+//@   props C03, C06, C10
+//@   let declared = 4 * int(vs.BE16(bs, 12))
+//@   let okmeta = len(bs) >= 14 && vs.BE32(bs, 4) & 0xffff0000 == 0x10000000 && 2 <= declared && declared <= 65536
+//@   ensures err == nil ==> okmeta && len(bs) >= 14 + declared && vs.ProtoOK(bs[14]) && int(bs[15]) <= declared - 2
+//@   ensures !okmeta ==> err != nil
+//@   ensures okmeta && len(bs) < 14 + declared ==> err != nil
+//@   ensures okmeta && len(bs) >= 14 + declared && !vs.ProtoOK(bs[14]) ==> err != nil
+//@   ensures err == nil ==> param.HeaderLen == 14 + declared && param.PayloadLen == int(vs.BE32(bs, 0)) + 4 - param.HeaderLen
+//@   ensures err == nil ==> uint16(param.Flags) == vs.BE16(bs, 6) && param.SeqID == int32(vs.BE32(bs, 8)) && uint8(param.ProtocolID) == bs[14]
+//@   assigns forall g int :: true ==> g.$pool
+
+// EncodeToBytes: Encode into a bytes writer, then Flush: the returned slice is the flushed buffer,
+// whose length is what Encode appended.
+//@ func EncodeToBytes
+//@   arith int
+//@   props C06
+//@   ensures err == nil ==> (len(buf) - 14) % 4 == 0 && 4 <= len(buf) - 14 && (len(buf) - 14 < 0x100000000 ==> len(buf) - 14 <= 65536)
